@@ -198,10 +198,13 @@ def problems(draw, max_surveys=3, max_epochs=8, max_poly=3, n_rows=(4, 8), units
     spec = {"surveys": sv, "cross": d["cross"]}
     if ns == 1:
         spec["data_kind"] = "single"
-        if t_ref and draw(st.integers(0, 3)) == 0:
+        k_ref = draw(st.integers(0, 7)) if t_ref else 7
+        if k_ref in (0, 1):
             # explicit reference epoch before / inside / after the data
             spec["t_ref"] = rounded(d["t0"] + d["baseline"] * draw(fl(-1.0, 2.0)), 12)
             spec["t_ref_scale"] = draw(st.sampled_from(["tcb", "utc"]))
+        elif k_ref == 2 and t_ref == "allow_false":
+            spec["t_ref_false"] = True   # RVData(..., t_ref=False): times are not referred to any epoch (t_ref = BMJD 0)
     else:
         spec["data_kind"] = draw(st.sampled_from(list(data_kinds)))
         if spec["data_kind"] == "dict":
@@ -240,7 +243,9 @@ def build_rvdata(s, time_input="float", t_ref=None, t_ref_scale="tcb"):
     else:
         t_in = t
     kw = {}
-    if t_ref is not None:
+    if t_ref is False:
+        kw["t_ref"] = False
+    elif t_ref is not None:
         tr = Time(t_ref, format="mjd", scale="tcb")
         kw["t_ref"] = tr.utc if t_ref_scale == "utc" else tr
     return RVData(t=t_in, rv=np.array(s["rv"], dtype=float) * unit(s["unit"]),
@@ -251,7 +256,7 @@ def build_data(spec):
     sv = spec["surveys"]
     ti = spec.get("time_input", "float")
     if spec["data_kind"] == "single":
-        return build_rvdata(sv[0], ti, spec.get("t_ref"), spec.get("t_ref_scale", "tcb"))
+        return build_rvdata(sv[0], ti, False if spec.get("t_ref_false") else spec.get("t_ref"), spec.get("t_ref_scale", "tcb"))
     ds = [build_rvdata(s, ti) for s in sv]
     if spec["data_kind"] == "dict":
         return {k: d for k, d in zip(spec["keys"], ds)}
